@@ -135,7 +135,7 @@ func (p *Path) intrinsic(caller *frame, fn *ssa.Function, name string, args []Va
 	case "(*internal/godebug.Setting).IncNonDefault":
 		return nil, true
 	case "errors.Is":
-		// interpreted from real SSA normally; listed to document the surface
+		return smt.ConstBool(p.errorsIs(caller, args[0].(Iface), args[1].(Iface), 0)), true
 	case "internal/bytealg.IndexByteString", "strings.IndexByte":
 		return p.indexByte(args[0].(Str).bytesOrAbort(p), args[1].(*smt.Term)), true
 	case "internal/bytealg.IndexByte", "bytes.IndexByte":
@@ -564,4 +564,50 @@ func (p *Path) method(T types.Type, name string) *ssa.Function {
 		return nil
 	}
 	return p.in.Prog.MethodValue(sel)
+}
+
+// errorsIs mirrors errors.Is (without reflection): identity, an Is method, Unwrap chains.
+func (p *Path) errorsIs(caller *frame, err, target Iface, depth int) bool {
+	if err.T == nil || target.T == nil {
+		return err.T == nil && target.T == nil
+	}
+	if depth > 32 {
+		p.abortf("errors.Is: unwrap chain too deep")
+	}
+	comparable := types.Comparable(target.T)
+	for {
+		if comparable && sameType(err.T, target.T) {
+			eq := p.equals(err.T, err.V, target.V)
+			if p.branch(eq) {
+				return true
+			}
+		}
+		if m := p.method(err.T, "Is"); m != nil && m.Signature.Params().Len() == 1 {
+			r := p.callSSA(caller, token.NoPos, m, []Value{err.V, target}, nil)
+			if t, ok := r.(*smt.Term); ok && p.branch(t) {
+				return true
+			}
+		}
+		m := p.method(err.T, "Unwrap")
+		if m == nil {
+			return false
+		}
+		r := p.callSSA(caller, token.NoPos, m, []Value{err.V}, nil)
+		switch r := r.(type) {
+		case Iface:
+			if r.T == nil {
+				return false
+			}
+			err = r
+		case []Value:
+			for _, e := range r {
+				if ei, ok := e.(Iface); ok && ei.T != nil && p.errorsIs(caller, ei, target, depth+1) {
+					return true
+				}
+			}
+			return false
+		default:
+			return false
+		}
+	}
 }
